@@ -112,3 +112,114 @@ Theorem C17_schema_error_position_inside : forall (lc : bool) (bs : Wire.bytes) 
   (N.to_nat p < List.length bs)%nat.
 Proof. exact SchemaProofs.schema_error_position_inside. Qed.
 Print Assumptions C17_schema_error_position_inside.
+
+(* Property C17, "the last byte when the input ends early", for the openers (fixes 0219b8c, ca80efc):
+   an accepted text never ends after the first byte of // or /*, after ##, or inside a ### comment;
+   when the bytes are consumed, nothing is open and the step is one of these four, the text is refused
+   at its last byte with ErrUnexpectedEOF (303).  Proofs in SchemaScan/SchemaProofs.v. *)
+Theorem C17_schema_accepted_text_not_inside_opener : forall (lc : bool) (bs : Wire.bytes),
+  snd (SchemaScanner.scan lc bs) = SchemaScanner.Done ->
+  SchemaProofs.r_out (SchemaScanner.run (SchemaScanner.new_scanner lc) 0%N None bs []) = SchemaScanner.Done /\
+  SchemaScanner.unfinished_step
+    (SchemaScanner.s_step (SchemaProofs.r_sc (SchemaScanner.run (SchemaScanner.new_scanner lc) 0%N None bs []))) = false.
+Proof. exact SchemaProofs.scan_done_not_unfinished. Qed.
+Print Assumptions C17_schema_accepted_text_not_inside_opener.
+
+Theorem C17_schema_text_ending_inside_opener : forall (lc : bool) (bs : Wire.bytes),
+  SchemaProofs.r_out (SchemaScanner.run (SchemaScanner.new_scanner lc) 0%N None bs []) = SchemaScanner.Done ->
+  SchemaScanner.s_stk (SchemaProofs.r_sc (SchemaScanner.run (SchemaScanner.new_scanner lc) 0%N None bs [])) = [] ->
+  SchemaScanner.unfinished_step
+    (SchemaScanner.s_step (SchemaProofs.r_sc (SchemaScanner.run (SchemaScanner.new_scanner lc) 0%N None bs []))) = true ->
+  snd (SchemaScanner.scan lc bs) =
+  SchemaScanner.Err SchemaScanner.code_unexpected_eof (N.of_nat (List.length bs) - 1)%N.
+Proof. exact SchemaProofs.scan_ends_inside_opener. Qed.
+Print Assumptions C17_schema_text_ending_inside_opener.
+
+(* a concrete family: blanks followed by the first byte of an annotation opener, or by ## *)
+Theorem C17_schema_blank_then_slash : forall (lc : bool) (pre : Wire.bytes),
+  forallb SchemaScanner.is_blank pre = true ->
+  snd (SchemaScanner.scan lc (pre ++ [x2f])) =
+  SchemaScanner.Err SchemaScanner.code_unexpected_eof (N.of_nat (List.length pre)).
+Proof. exact SchemaProofs.scan_blank_then_slash. Qed.
+Print Assumptions C17_schema_blank_then_slash.
+
+Theorem C17_schema_blank_then_two_hashes : forall (lc : bool) (pre : Wire.bytes),
+  forallb SchemaScanner.is_blank pre = true ->
+  snd (SchemaScanner.scan lc (pre ++ [x23; x23])) =
+  SchemaScanner.Err SchemaScanner.code_unexpected_eof (N.of_nat (List.length pre) + 1)%N.
+Proof. exact SchemaProofs.scan_blank_then_two_hashes. Qed.
+Print Assumptions C17_schema_blank_then_two_hashes.
+
+(* "an accepted text followed by a blank and '/' is refused with 303 at the '/'" is false in general
+   (inside an annotation text or a comment, after a non-empty array, after an inline annotation that
+   ended with its line, in length mode after an annotation object): *)
+Example C17_schema_blank_slash_after_accepted_text :
+  snd (SchemaScanner.scan false (SchemaProofs.of_codes [49]%N ++ [x20; x2f])) = SchemaScanner.Err 303 2 /\
+  snd (SchemaScanner.scan false (SchemaProofs.of_codes [49; 32; 47; 47; 32; 97; 98; 99]%N)) = SchemaScanner.Done /\
+  snd (SchemaScanner.scan false (SchemaProofs.of_codes [49; 32; 47; 47; 32; 97; 98; 99]%N ++ [x20; x2f])) = SchemaScanner.Done /\
+  snd (SchemaScanner.scan false (SchemaProofs.of_codes [49; 32; 35; 32; 99]%N ++ [x20; x2f])) = SchemaScanner.Done /\
+  snd (SchemaScanner.scan false (SchemaProofs.of_codes [91; 49; 44; 50; 93]%N)) = SchemaScanner.Done /\
+  snd (SchemaScanner.scan false (SchemaProofs.of_codes [91; 49; 44; 50; 93]%N ++ [x20; x2f])) = SchemaScanner.Err 304 6 /\
+  snd (SchemaScanner.scan false (SchemaProofs.of_codes [49; 32; 47; 47; 32; 97; 98; 99; 10]%N)) = SchemaScanner.Done /\
+  snd (SchemaScanner.scan false (SchemaProofs.of_codes [49; 32; 47; 47; 32; 97; 98; 99; 10]%N ++ [x20; x2f])) = SchemaScanner.Err 301 10 /\
+  snd (SchemaScanner.scan true (SchemaProofs.of_codes [49; 32; 47; 47; 32; 123; 97; 58; 49; 125]%N)) = SchemaScanner.Done /\
+  snd (SchemaScanner.scan true (SchemaProofs.of_codes [49; 32; 47; 47; 32; 123; 97; 58; 49; 125]%N ++ [x20; x2f])) = SchemaScanner.Done /\
+  snd (SchemaScanner.scan false (SchemaProofs.of_codes [49; 32; 47; 47; 32; 123; 97; 58; 49; 125]%N ++ [x20; x2f])) = SchemaScanner.Err 301 11.
+Proof. exact SchemaProofs.blank_slash_after_accepted_text. Qed.
+
+(* Property C17 (enum-rule scanner; rules/enum/scanner.go, model Enum/EnumScanner.v, after the fix
+   0219b8c) — a text that ends right after the first byte of an annotation opener, // or /* , is
+   refused with ErrUnexpectedEOF at that byte.  Proofs in Enum/EnumProofs.v.
+   [EnumProofs.r_sc (EnumScanner.run lc bs sc0 0 bs [])] is the scanner structure when Next() stops
+   reading ([r_out] = Done: the text has been read to its end); StAnyAnnotationStart is the step
+   function switchToAnnotation installs, i.e. unfinishedAnnotationStart = true. *)
+From JS Require Enum.EnumScanner Enum.EnumProofs.
+
+(* an accepted text never ends in that state ... *)
+Theorem C17_enum_accepted_text_not_in_opener : forall lc bs evs,
+  EnumScanner.scan lc bs = (evs, EnumScanner.Eos) ->
+  EnumScanner.s_step (EnumProofs.r_sc (EnumScanner.run lc bs EnumScanner.sc0 0%N bs [])) <>
+  EnumScanner.StAnyAnnotationStart.
+Proof. exact EnumProofs.enum_scan_eos_not_in_opener. Qed.
+Print Assumptions C17_enum_accepted_text_not_in_opener.
+
+(* ... a text read to its end in that state is refused at its last byte, after the events
+   delivered so far *)
+Theorem C17_enum_opener_eof_position : forall lc bs,
+  let r := EnumScanner.run lc bs EnumScanner.sc0 0%N bs [] in
+  EnumProofs.r_out r = EnumScanner.Done ->
+  EnumScanner.s_step (EnumProofs.r_sc r) = EnumScanner.StAnyAnnotationStart ->
+  bs <> [] /\
+  EnumScanner.scan lc bs =
+    (rev (EnumProofs.r_evs r),
+     EnumScanner.Err EnumScanner.code_unexpected_eof (N.of_nat (length bs) - 1)%N).
+Proof. exact EnumProofs.enum_scan_opener_eof. Qed.
+Print Assumptions C17_enum_opener_eof_position.
+
+(* the concrete consequence: after a text the scanner accepts (Check mode; not a blank text, after
+   which the array is still to come: EnumProofs.enum_scan_opener_side_conditions), a new line and a
+   single '/' are refused at the '/'.  With a space instead of the new line the same holds when
+   the accepted text does not end inside an inline annotation, where '/' is annotation text
+   ("[]//" and "[]// /" are both accepted): EnumProofs.enum_scan_opener_after_space_refused. *)
+Theorem C17_enum_text_ending_in_opener_refused : forall bs,
+  snd (EnumScanner.scan false bs) = EnumScanner.Eos -> forallb EnumScanner.is_blank bs = false ->
+  snd (EnumScanner.scan false (bs ++ [x0a; x2f])) =
+  EnumScanner.Err EnumScanner.code_unexpected_eof (N.of_nat (length bs) + 1)%N.
+Proof. exact EnumProofs.enum_scan_opener_after_newline_refused. Qed.
+Print Assumptions C17_enum_text_ending_in_opener_refused.
+
+Theorem C17_enum_text_ending_in_opener_refused_space : forall bs,
+  snd (EnumScanner.scan false bs) = EnumScanner.Eos -> forallb EnumScanner.is_blank bs = false ->
+  EnumScanner.s_stack (EnumProofs.r_sc (EnumScanner.run false bs EnumScanner.sc0 0%N bs [])) = [] ->
+  snd (EnumScanner.scan false (bs ++ [x20; x2f])) =
+  EnumScanner.Err EnumScanner.code_unexpected_eof (N.of_nat (length bs) + 1)%N.
+Proof. exact EnumProofs.enum_scan_opener_after_space_refused. Qed.
+Print Assumptions C17_enum_text_ending_in_opener_refused_space.
+
+Theorem C17_enum_text_ending_in_opener_refused_space_plain : forall bs,
+  snd (EnumScanner.scan false bs) = EnumScanner.Eos -> forallb EnumScanner.is_blank bs = false ->
+  EnumProofs.no_comment bs = true ->
+  snd (EnumScanner.scan false (bs ++ [x20; x2f])) =
+  EnumScanner.Err EnumScanner.code_unexpected_eof (N.of_nat (length bs) + 1)%N.
+Proof. exact EnumProofs.enum_scan_opener_after_space_refused_plain. Qed.
+Print Assumptions C17_enum_text_ending_in_opener_refused_space_plain.
